@@ -250,38 +250,89 @@ theorem measure_run (cfg : Cfg) (st st' : St) (sched : List Act) (h : runSched c
       have h2 := measure_step cfg st st1 a hs hi
       simp only [List.length_cons]; omega
 
-/-! ### arithmetic cores of the deadlock analyses (plain numbers and booleans) -/
+/-! ### a deadlocking schedule of the pinned design when both sides exceed the capacity -/
 
-set_option maxHeartbeats 4000000 in
-/-- `Alt`: no action enabled ⇒ both finished, for every capacity -/
-theorem alt_core (c TA TB sa ra sb rb : Nat) (wa wb bA bB : Bool)
-    (hTA : 2 ≤ TA) (hTB : 2 ≤ TB)
-    (ia : sa ≤ TA ∧ (wa = true → 1 ≤ sa) ∧ (ra = 0 → sa ≤ 1) ∧ (ra ≤ 1 → sa ≤ 2) ∧ (1 ≤ ra → 1 ≤ sa) ∧ (2 ≤ ra → 2 ≤ sa) ∧ ra ≤ sb)
-    (ib : sb ≤ TB ∧ (wb = true → 1 ≤ sb) ∧ (rb = 0 → sb ≤ 1) ∧ (rb ≤ 1 → sb ≤ 2) ∧ (1 ≤ rb → 1 ≤ sb) ∧ (2 ≤ rb → 2 ≤ sb) ∧ rb ≤ sa)
-    (hbA : sa = TA → bA = true) (hbB : sb = TB → bB = true)
-    (eA : ¬(wa = false ∧ sa < TA ∧ (sa = 0 ∨ (sa = 1 ∧ 1 ≤ ra) ∨ (2 ≤ sa ∧ 2 ≤ ra))))
-    (fA : ¬(wa = true ∧ sa - rb ≤ c))
-    (rA : ¬(ra < sb ∧ ((ra = 0 ∧ sa = 1) ∨ (ra = 1 ∧ sa = 2) ∨ (2 ≤ ra ∧ 2 ≤ sa ∧ (wa = true ∨ bA = true)))))
-    (eB : ¬(wb = false ∧ sb < TB ∧ (sb = 0 ∨ (sb = 1 ∧ 1 ≤ rb) ∨ (2 ≤ sb ∧ 2 ≤ rb))))
-    (fB : ¬(wb = true ∧ sb - ra ≤ c))
-    (rB : ¬(rb < sa ∧ ((rb = 0 ∧ sb = 1) ∨ (rb = 1 ∧ sb = 2) ∨ (2 ≤ rb ∧ 2 ≤ sb ∧ (wb = true ∨ bB = true))))) :
-    (sa = TA ∧ wa = false ∧ ra = TB) ∧ (sb = TB ∧ wb = false ∧ rb = TA) := by
-  cases wa <;> cases wb <;> cases bA <;> cases bB <;> simp at * <;> omega
+theorem runSched_append (cfg : Cfg) (st : St) (x y : List Act) :
+    runSched cfg st (x ++ y) = (runSched cfg st x).bind fun st' => runSched cfg st' y := by
+  induction x generalizing st with
+  | nil => simp [runSched]
+  | cons a rest ih =>
+    simp only [List.cons_append, runSched]
+    cases stepFn cfg st a with
+    | none => simp
+    | some st' => simp [ih]
 
-set_option maxHeartbeats 4000000 in
-/-- `Orig`, capacity ≥ 1, A's Sync-phase messages fit into the buffer: no action enabled ⇒ both finished -/
-theorem orig_core (c TA TB sa ra sb rb : Nat) (wa wb bA bB : Bool)
-    (hTA : 2 ≤ TA) (hTB : 2 ≤ TB) (hc : 1 ≤ c) (hfit : TA - 2 ≤ c)
-    (ia : sa ≤ TA ∧ (wa = true → 1 ≤ sa) ∧ (ra = 0 → sa ≤ 1) ∧ (ra ≤ 1 → sa ≤ 2) ∧ (1 ≤ ra → 1 ≤ sa) ∧ (2 ≤ ra → 2 ≤ sa) ∧ ra ≤ sb)
-    (ib : sb ≤ TB ∧ (wb = true → 1 ≤ sb) ∧ (rb = 0 → sb ≤ 1) ∧ (rb ≤ 1 → sb ≤ 2) ∧ (1 ≤ rb → 1 ≤ sb) ∧ (2 ≤ rb → 2 ≤ sb) ∧ rb ≤ sa)
-    (hbA : sa = TA → bA = true) (hbB : sb = TB → bB = true)
-    (eA : ¬(wa = false ∧ sa < TA ∧ (sa = 0 ∨ (sa = 1 ∧ 1 ≤ ra) ∨ (2 ≤ sa ∧ 2 ≤ ra))))
-    (fA : ¬(wa = true ∧ sa - rb ≤ c))
-    (rA : ¬(ra < sb ∧ wa = false ∧ ((ra = 0 ∧ sa = 1) ∨ (ra = 1 ∧ sa = 2) ∨ (2 ≤ ra ∧ bA = true))))
-    (eB : ¬(wb = false ∧ sb < TB ∧ (sb = 0 ∨ (sb = 1 ∧ 1 ≤ rb) ∨ (2 ≤ sb ∧ 2 ≤ rb))))
-    (fB : ¬(wb = true ∧ sb - ra ≤ c))
-    (rB : ¬(rb < sa ∧ wb = false ∧ ((rb = 0 ∧ sb = 1) ∨ (rb = 1 ∧ sb = 2) ∨ (2 ≤ rb ∧ bB = true)))) :
-    (sa = TA ∧ wa = false ∧ ra = TB) ∧ (sb = TB ∧ wb = false ∧ rb = TA) := by
-  cases wa <;> cases wb <;> cases bA <;> cases bB <;> simp at * <;> omega
+/-- `n` rounds of "enqueue, send resolves" by one peer -/
+def pump (p : Bool) : Nat → List Act
+  | 0 => []
+  | n + 1 => ⟨p, .enq⟩ :: ⟨p, .flush⟩ :: pump p n
+
+theorem pumpA (cfg : Cfg) (b : Peer) (hb : b.r = 2) (n k : Nat) (hk : k + n ≤ cfg.c)
+    (hT : 2 + k + n ≤ total cfg.ba) :
+    runSched cfg { a := ⟨2 + k, false, 2⟩, b := b } (pump true n) =
+      some { a := ⟨2 + k + n, false, 2⟩, b := b } := by
+  induction n generalizing k with
+  | zero => simp [pump, runSched]
+  | succ n ih =>
+    have h1 : stepFn cfg { a := ⟨2 + k, false, 2⟩, b := b } ⟨true, .enq⟩ =
+        some { a := ⟨2 + k + 1, true, 2⟩, b := b } := by
+      have : 2 + k < total cfg.ba := by omega
+      simp [stepFn, stepPeer, canEnq, this]
+    have h2 : stepFn cfg { a := ⟨2 + k + 1, true, 2⟩, b := b } ⟨true, .flush⟩ =
+        some { a := ⟨2 + k + 1, false, 2⟩, b := b } := by
+      have : 2 + k + 1 - b.r ≤ cfg.c := by rw [hb]; omega
+      simp [stepFn, stepPeer, canFlush, this]
+    simp only [pump, runSched, h1, h2]
+    have := ih (k + 1) (by omega) (by omega)
+    have e1 : 2 + (k + 1) = 2 + k + 1 := by omega
+    rw [e1] at this
+    have e2 : 2 + k + 1 + n = 2 + k + (n + 1) := by omega
+    rw [e2] at this
+    exact this
+
+theorem pumpB (cfg : Cfg) (a : Peer) (ha : a.r = 2) (n k : Nat) (hk : k + n ≤ cfg.c)
+    (hT : 2 + k + n ≤ total cfg.bb) :
+    runSched cfg { a := a, b := ⟨2 + k, false, 2⟩ } (pump false n) =
+      some { a := a, b := ⟨2 + k + n, false, 2⟩ } := by
+  induction n generalizing k with
+  | zero => simp [pump, runSched]
+  | succ n ih =>
+    have h1 : stepFn cfg { a := a, b := ⟨2 + k, false, 2⟩ } ⟨false, .enq⟩ =
+        some { a := a, b := ⟨2 + k + 1, true, 2⟩ } := by
+      have : 2 + k < total cfg.bb := by omega
+      simp [stepFn, stepPeer, canEnq, this]
+    have h2 : stepFn cfg { a := a, b := ⟨2 + k + 1, true, 2⟩ } ⟨false, .flush⟩ =
+        some { a := a, b := ⟨2 + k + 1, false, 2⟩ } := by
+      have : 2 + k + 1 - a.r ≤ cfg.c := by rw [ha]; omega
+      simp [stepFn, stepPeer, canFlush, this]
+    simp only [pump, runSched, h1, h2]
+    have := ih (k + 1) (by omega) (by omega)
+    have e1 : 2 + (k + 1) = 2 + k + 1 := by omega
+    rw [e1] at this
+    have e2 : 2 + k + 1 + n = 2 + k + (n + 1) := by omega
+    rw [e2] at this
+    exact this
+
+/-- the two sequential exchanges (`Have`, then `PreSync | Done`) -/
+def handshake : List Act :=
+  [⟨true, .enq⟩, ⟨true, .flush⟩, ⟨false, .enq⟩, ⟨false, .flush⟩, ⟨true, .recv⟩, ⟨false, .recv⟩,
+   ⟨true, .enq⟩, ⟨true, .flush⟩, ⟨false, .enq⟩, ⟨false, .flush⟩, ⟨true, .recv⟩, ⟨false, .recv⟩]
+
+theorem handshake_run (cfg : Cfg) (horig : cfg.alt = false) (hc : 1 ≤ cfg.c) :
+    runSched cfg init handshake = some { a := ⟨2, false, 2⟩, b := ⟨2, false, 2⟩ } := by
+  have ha := total_ge cfg.ba
+  have hb := total_ge cfg.bb
+  have t1 : 0 < total cfg.ba := by omega
+  have t2 : 0 < total cfg.bb := by omega
+  have t3 : 1 < total cfg.ba := by omega
+  have t4 : 1 < total cfg.bb := by omega
+  have c1 : 1 ≤ cfg.c := hc
+  have c2 : 2 - 1 ≤ cfg.c := by omega
+  have bA : boundary cfg.ba 2 = true := by
+    unfold boundary
+    cases cfg.ba with
+    | nil => simp [boundaryFrom]
+    | cons n rest => cases rest <;> simp [boundaryFrom]
+  simp [handshake, runSched, stepFn, stepPeer, canEnq, canFlush, canRecv, init, horig, t1, t2, t3, t4, c1]
 
 end P2.C21
